@@ -244,3 +244,116 @@ func eqBySegments(a, b *Term) *Term {
 	}
 	return r
 }
+
+// ---------------------------------------------------------------------------
+// Abstraction of hard arithmetic: unsigned division/remainder with a symbolic
+// divisor (and symbolic x symbolic multiplication) are replaced by
+// uninterpreted functions. If an assertion's negation is unsat under the
+// abstraction (plus the valid lemmas already in the path condition) it is unsat
+// for the real operators too; a sat answer is inconclusive and the precise
+// query is asked.
+
+var absCache = map[int]*Term{}
+
+func hasHard(t *Term, seen map[int]bool) bool {
+	if seen[t.id] {
+		return false
+	}
+	seen[t.id] = true
+	switch t.Op {
+	case OpURem, OpUDiv, OpSRem, OpSDiv:
+		if t.A[1].Op != OpConst {
+			return true
+		}
+	case OpMul:
+		if t.A[0].Op != OpConst && t.A[1].Op != OpConst {
+			return true
+		}
+	}
+	for _, a := range t.A {
+		if hasHard(a, seen) {
+			return true
+		}
+	}
+	return false
+}
+
+func abstractHard(t *Term) *Term {
+	if t.Op == OpConst || t.Op == OpVar {
+		return t
+	}
+	if r, ok := absCache[t.id]; ok {
+		return r
+	}
+	args := make([]*Term, len(t.A))
+	changed := false
+	for i, a := range t.A {
+		args[i] = abstractHard(a)
+		if args[i] != a {
+			changed = true
+		}
+	}
+	var r *Term
+	hard := false
+	switch t.Op {
+	case OpURem, OpUDiv, OpSRem, OpSDiv:
+		hard = t.A[1].Op != OpConst
+	case OpMul:
+		hard = t.A[0].Op != OpConst && t.A[1].Op != OpConst
+	}
+	switch {
+	case hard:
+		r = UF("abs_"+opNames[t.Op]+"_"+itoa(t.W), t.W, args...)
+	case !changed:
+		r = t
+	default:
+		r = rebuild(t, args)
+	}
+	absCache[t.id] = r
+	return r
+}
+
+func itoa(i int) string {
+	if i == 0 {
+		return "0"
+	}
+	s := ""
+	for i > 0 {
+		s = string(rune('0'+i%10)) + s
+		i /= 10
+	}
+	return s
+}
+
+// rebuild re-creates a term of the same operator over new arguments.
+func rebuild(t *Term, a []*Term) *Term {
+	switch t.Op {
+	case OpNot:
+		return Not(a[0])
+	case OpAnd:
+		return And(a[0], a[1])
+	case OpOr:
+		return Or(a[0], a[1])
+	case OpIte:
+		return Ite(a[0], a[1], a[2])
+	case OpEq:
+		return Eq(a[0], a[1])
+	case OpConcat:
+		return Concat(a[0], a[1])
+	case OpExtract:
+		return Extract(a[0], int(t.V>>8), int(t.V&0xff))
+	case OpZExt:
+		return ZExt(a[0], t.W)
+	case OpSExt:
+		return SExt(a[0], t.W)
+	case OpBNot:
+		return BNot(a[0])
+	case OpNeg:
+		return Neg(a[0])
+	case OpFLt, OpFLe, OpFEq, OpFIsNaN, OpFIsInf:
+		return FPred(t.Op, t.fw, a...)
+	case OpUF:
+		return UF(t.Name, t.W, a...)
+	}
+	return Bin(t.Op, a[0], a[1])
+}
